@@ -96,3 +96,9 @@ package checker
 //@   mode nopanic
 //@   assigns *
 //@   requires v != nil && node != nil
+
+// a slice bound of the wrong type is reported at the bound expression, not at the '[' of the slice (C13)
+//@ func checker.visitor.SliceNode
+//@   property C13
+//@   schema error-at-child From
+//@   schema error-at-child To
